@@ -358,9 +358,9 @@ func ruleContextKeys(c *chk.Ctx, d *dispatchModel) {
 				}
 			})
 		}
-		ir.Calls(d.checkAssign, func(ci ssa.CallInstruction) {
+		c.P.ExtCalls(d.checkAssign, func(ci ssa.CallInstruction) {
 			g := ci.Common().StaticCallee()
-			if g != nil && ir.RecvNamed(g) == c.M.Server && g.Signature.Results().Len() == 1 && isHandlerSig(c, g.Signature.Results().At(0).Type()) && !c.P.InExt(d.checkAssign, g) || (g != nil && g.Signature.Results().Len() == 1 && isHandlerSig(c, g.Signature.Results().At(0).Type()) && ir.RecvNamed(g) == c.M.Server) {
+			if g != nil && ir.RecvNamed(g) == c.M.Server && g.Signature.Results().Len() == 1 && isHandlerSig(c, g.Signature.Results().At(0).Type()) {
 				assign = ci
 			}
 		})
@@ -376,7 +376,7 @@ func ruleContextKeys(c *chk.Ctx, d *dispatchModel) {
 		c.Check(ok, "TABLE.ctxkey", d.checkAssign, "assigner gets the request's context", pos, "the assigner is called with the task's context, after the inbound request was attached to it", "the assigner is not given the context that carries the inbound request")
 		// the context attached carries the request of the same task
 		okReq := false
-		ir.Instrs(d.setContext, func(ins ssa.Instruction) {
+		c.P.ExtInstrs(d.checkAssign, func(ins ssa.Instruction) {
 			call, ok := ins.(*ssa.Call)
 			if !ok || !ir.IsCallTo(&call.Call, "context.WithValue") {
 				return
@@ -391,13 +391,27 @@ func ruleContextKeys(c *chk.Ctx, d *dispatchModel) {
 		// the handler is called with the context that carries the server
 		hc := d.handlerCall.Common()
 		okSrv := false
-		if call, ok := hc.Args[0].(*ssa.Call); ok && ir.IsCallTo(&call.Call, "context.WithValue") && keyOf(call.Call.Args[1]) != "" {
-			if mi, ok := call.Call.Args[2].(*ssa.MakeInterface); ok {
-				if _, isP := mi.X.(*ssa.Parameter); isP {
-					okSrv = true
+		isWV := func(v ssa.Value) bool {
+			call, ok := v.(*ssa.Call)
+			return ok && ir.IsCallTo(&call.Call, "context.WithValue")
+		}
+		nsrc := 0
+		for _, src := range c.P.SourcesStop(hc.Args[0], isWV) {
+			nsrc++
+			call, ok := src.(*ssa.Call)
+			good := false
+			if ok && isWV(src) && keyOf(call.Call.Args[1]) != "" {
+				if mi, ok := call.Call.Args[2].(*ssa.MakeInterface); ok {
+					if pt, ok := mi.X.Type().(*types.Pointer); ok && types.Unalias(pt.Elem()) == types.Type(c.M.Server) {
+						good = true
+					}
 				}
 			}
+			if !good {
+				nsrc = -1000
+			}
 		}
+		okSrv = nsrc > 0
 		c.Check(okSrv, "TABLE.ctxkey", d.invoke, "handler context carries the server", d.handlerCall.Pos(), "the handler receives the context extended with the server under its key", "the handler is not called with the context that carries the server")
 	}
 }
